@@ -30,6 +30,10 @@ type Obligation struct {
 	All     []SolverResult
 	File    string
 	Skipped string
+	// block canaries (thorough tier): a block that is unreachable under the contracts is an alarm
+	// only if a contract obligation (assert, ensures, invariant) was generated inside it
+	BlockCanary    bool
+	HasContractObl bool
 	// text of a counterexample replay on the real code (replay.go)
 	ReplayNote string
 }
@@ -111,43 +115,44 @@ type edgeIn struct {
 }
 
 type FnCtx struct {
-	eng           *Engine
-	fn            *ssa.Function
-	spec          *FuncSpec
-	sc            *Script
-	obls          []*Obligation
-	heapSorts     map[string]string
-	notes         map[string]bool
-	unsup         []string
-	frameCtr      int
-	safetyCtr     map[string]int
-	top           *Frame
-	assumed       map[string]bool // callee contracts used (for trusted base)
-	inlined       map[string]bool
-	deriv         map[string]derivInfo
-	lockInit      map[string][][2]string
-	callRes       []Val
-	retRes        map[string]Val
-	callArgs      []Val
-	frameTargets  []modTarget
-	foreignHavoc  bool
-	localTouched  map[string]bool
-	dry           int
-	noFacts       int
-	qfacts        [][]string
-	factBase      string
-	factAlloc     string
-	masks         map[string]string // term -> shift term s, for (2^s - 1)
-	pow2s         map[string]string // term -> s, for 2^s
-	verAlloc      map[string]string // heap-array version -> allocation mark when it was created
-	anchorSeen    map[string]bool   // anchors (call sites, loop heads/latches) reached in the top frame
-	boxes         map[string]Val
-	nopanic       bool
-	sweep         bool // zero-annotation sweep mode: loops without invariants allowed
-	blockCanaries bool
-	lockOnly      bool // only the lock-discipline obligations of this function are claimed (C16 sweep)
-	funcName      string
-	lockDecl      map[string]*GuardDecl
+	eng            *Engine
+	fn             *ssa.Function
+	spec           *FuncSpec
+	sc             *Script
+	obls           []*Obligation
+	heapSorts      map[string]string
+	notes          map[string]bool
+	unsup          []string
+	frameCtr       int
+	safetyCtr      map[string]int
+	top            *Frame
+	assumed        map[string]bool // callee contracts used (for trusted base)
+	inlined        map[string]bool
+	deriv          map[string]derivInfo
+	lockInit       map[string][][2]string
+	callRes        []Val
+	retRes         map[string]Val
+	callArgs       []Val
+	frameTargets   []modTarget
+	foreignHavoc   bool
+	localTouched   map[string]bool
+	dry            int
+	noFacts        int
+	qfacts         [][]string
+	factBase       string
+	factAlloc      string
+	masks          map[string]string // term -> shift term s, for (2^s - 1)
+	pow2s          map[string]string // term -> s, for 2^s
+	verAlloc       map[string]string // heap-array version -> allocation mark when it was created
+	anchorSeen     map[string]bool   // anchors (call sites, loop heads/latches) reached in the top frame
+	curBlockCanary *Obligation
+	boxes          map[string]Val
+	nopanic        bool
+	sweep          bool // zero-annotation sweep mode: loops without invariants allowed
+	blockCanaries  bool
+	lockOnly       bool // only the lock-discipline obligations of this function are claimed (C16 sweep)
+	funcName       string
+	lockDecl       map[string]*GuardDecl
 }
 
 func (c *FnCtx) note(s string) { c.notes[s] = true }
@@ -573,6 +578,9 @@ func (c *FnCtx) oblige(kind, label, cond, goal, pos, text string, props []string
 		props = c.spec.Props
 	}
 	o := &Obligation{Name: name, Kind: kind, Func: c.funcName, Props: props, Mark: c.sc.mark(), Cond: cond, Goal: goal, Pos: pos, Text: text, Script: c.sc}
+	if c.curBlockCanary != nil && (kind == "assert" || kind == "ensures" || kind == "invariant" || strings.Contains(kind, ":preserved") || strings.Contains(kind, ":established") || strings.HasPrefix(kind, "loop")) {
+		c.curBlockCanary.HasContractObl = true
+	}
 	c.obls = append(c.obls, o)
 	return o
 }
